@@ -472,6 +472,7 @@ pub fn scenarios(prop: &str, quick: bool) -> Vec<Scenario> {
                 v.push(mk("batch_delete_vs_reader", "C20", b, vec![SOp::CreateKg(0), SOp::Ins(0, vec![1, 2])], vec![vec![SOp::Del(0, vec![1, 2]), SOp::Query(0)], vec![SOp::Query(0), SOp::Query(0)]]));
                 v.push(mk("rule_registration_vs_reader", "C20", b, vec![SOp::CreateKg(0), SOp::Ins(0, vec![1])], vec![vec![SOp::RegRule(0), SOp::QueryP(0)], vec![SOp::QueryP(0), SOp::Query(0)]]));
                 v.push(mk("two_writers_one_reader", "C20", b, vec![SOp::CreateKg(0)], vec![vec![SOp::Ins(0, vec![1])], vec![SOp::Ins(0, vec![2])], vec![SOp::Query(0), SOp::Query(0)]]));
+                v.push(mk("overlapping_batch_insert_vs_batch_delete", "C20", b, vec![SOp::CreateKg(0), SOp::Ins(0, vec![1])], vec![vec![SOp::Ins(0, vec![1, 2]), SOp::Query(0)], vec![SOp::Del(0, vec![1, 2])]]));
                 v.push(mk("insert_then_delete_vs_reader", "C20", b, vec![SOp::CreateKg(0)], vec![vec![SOp::Ins(0, vec![1, 2]), SOp::Del(0, vec![1])], vec![SOp::Query(0), SOp::Query(0)]]));
                 if !quick {
                     v.push(mk("writer_rule_reader", "C20", b, vec![SOp::CreateKg(0)], vec![vec![SOp::Ins(0, vec![1, 2])], vec![SOp::RegRule(0)], vec![SOp::QueryP(0), SOp::Query(0)]]));
@@ -482,6 +483,7 @@ pub fn scenarios(prop: &str, quick: bool) -> Vec<Scenario> {
                 v.push(mk("se_insert_vs_save_all", "C15", b, vec![SOp::CreateKg(0), SOp::Ins(0, vec![1])], vec![vec![SOp::Ins(0, vec![2])], vec![SOp::SaveAll]]));
                 v.push(mk("se_insert_vs_compact_all", "C15", b, vec![SOp::CreateKg(0), SOp::Ins(0, vec![1]), SOp::SaveAll, SOp::Ins(0, vec![3])], vec![vec![SOp::Ins(0, vec![2])], vec![SOp::CompactAll]]));
                 v.push(mk("se_insert_vs_delete_same_tuple", "C15", b, vec![SOp::CreateKg(0), SOp::Ins(0, vec![1])], vec![vec![SOp::Ins(0, vec![1, 2])], vec![SOp::Del(0, vec![1])]]));
+                v.push(mk("se_batch_insert_vs_batch_delete_overlapping", "C15", b, vec![SOp::CreateKg(0), SOp::Ins(0, vec![1])], vec![vec![SOp::Ins(0, vec![1, 2])], vec![SOp::Del(0, vec![1, 2])]]));
                 v.push(mk("se_insert_vs_insert_same_tuple", "C15", b, vec![SOp::CreateKg(0)], vec![vec![SOp::Ins(0, vec![1])], vec![SOp::Ins(0, vec![1])]]));
                 v.push(mk("se_insert_other_kg_vs_save_all", "C15", b, vec![SOp::CreateKg(0), SOp::CreateKg(1), SOp::Ins(0, vec![1])], vec![vec![SOp::Ins(1, vec![2])], vec![SOp::SaveAll]]));
                 if !quick {
@@ -573,7 +575,7 @@ pub fn c20(args: &Args) -> i32 {
     }
     let run = Run::new(args, "model_checking", 110.0, 2400.0);
     let bound = if run.quick() { 2 } else { 3 };
-    run.set_rule("interleavings of real threads on one real StorageEngine at the storage-engine and persist-layer scheduling points: a writer issuing a two-tuple batch insert / batch delete / rule registration (then reading its own write) against 1-2 readers issuing snapshot queries, two writers and a reader; ALL schedules with at most B preemptions. Oracle: the observed query results and acknowledgements must be linearizable against a sequential set model (brute force over all orders consistent with real time and program order) - in particular no query sees one tuple of a batch without the other, and a thread sees its own acknowledged write; the final served state, the state after a clean restart, and the state recovered from the directory copied at every scheduling step must be explained the same way. non-trivial = schedules with at least one context switch; states = scheduling points visited");
+    run.set_rule("interleavings of real threads on one real StorageEngine at the storage-engine and persist-layer scheduling points: a writer issuing a two-tuple batch insert / batch delete / rule registration (then reading its own write) against 1-2 readers issuing snapshot queries, two writers and a reader, a batch insert against a batch delete of overlapping tuples; ALL schedules with at most B preemptions. Oracle: the observed query results and acknowledgements must be linearizable against a sequential set model (brute force over all orders consistent with real time and program order) - in particular no query sees one tuple of a batch without the other, and a thread sees its own acknowledged write; the final served state, the state after a clean restart, and the state recovered from the directory copied at every scheduling step must be explained the same way. non-trivial = schedules with at least one context switch; states = scheduling points visited");
     run.assume("sequentially consistent scheduling at the hook sites; code between two sites is atomic");
     let (sched, steps, imgs, dl, b) = explore_scenarios(&run, "C20", bound);
     run.put("schedules", json!(sched));
